@@ -344,6 +344,7 @@ func implHist(h caseHead, raw []byte) map[string]any {
 	}
 	var positions []map[string]any
 	allSame := true
+	firstSeen := map[string]string{}
 	for _, d := range hh.Docs {
 		doc := d
 		k1, r1 := one(func() (string, error) {
@@ -356,7 +357,14 @@ func implHist(h caseHead, raw []byte) map[string]any {
 		if !same {
 			allSame = false
 		}
-		positions = append(positions, map[string]any{"compiled": k1, "fresh": k2, "same": same, "bytes": len(r1)})
+		// the same document again, later in the history, must give the same report as the first time
+		repeatSame := true
+		if prev, ok := firstSeen[doc]; ok {
+			repeatSame = prev == k1+"\n"+r1
+		} else {
+			firstSeen[doc] = k1 + "\n" + r1
+		}
+		positions = append(positions, map[string]any{"compiled": k1, "fresh": k2, "same": same, "repeatSame": repeatSame, "bytes": len(r1)})
 	}
 	res["outcome"] = "ok"
 	res["allSame"] = allSame
